@@ -581,6 +581,8 @@ def add_months(d, m):
 
 def _date_arg(ev, n, sh, at):
     v = ev.arg_scalar(n, sh, at)
+    if isinstance(v, str) and not any(ch.isdigit() for ch in v):
+        raise XlError('#VALUE!')          # a text that cannot be a date: an error value in Excel, a failure in the library
     if not isinstance(v, dt.datetime):
         raise NoOpinion('non-date argument of a date function')
     return v
@@ -943,12 +945,20 @@ def _shape(a):
     return (a.h, a.w)
 
 
+def _check_shapes(ranges, target):
+    """different SIZES are an error (statement); the same number of cells in another shape (1x6 against 6x1): silent"""
+    for rg in ranges:
+        if _shape(rg) != _shape(target):
+            if rg.h * rg.w == target.h * target.w:
+                raise NoOpinion('ranges of the same size but different shape')
+            raise XlError(None)
+
+
 @fn('SUMIFS', 3, 255)
 def _sumifs(ev, a, sh, at):
     target = ev.ev(a[0], sh, at)
     pairs = _crit_pairs(ev, a[1:], sh, at)
-    if any(_shape(r) != _shape(target) for r, _ in pairs):
-        raise XlError(None)
+    _check_shapes([r for r, _ in pairs], target)
     sel = _select(pairs, len(target.flat()))
     return sum(_target_numbers(ev, [v for v, s in zip(target.flat(), sel) if s]))
 
@@ -957,8 +967,7 @@ def _sumifs(ev, a, sh, at):
 def _averageifs(ev, a, sh, at):
     target = ev.ev(a[0], sh, at)
     pairs = _crit_pairs(ev, a[1:], sh, at)
-    if any(_shape(r) != _shape(target) for r, _ in pairs):
-        raise XlError(None)
+    _check_shapes([r for r, _ in pairs], target)
     sel = _select(pairs, len(target.flat()))
     nums = _target_numbers(ev, [v for v, s in zip(target.flat(), sel) if s])
     if not nums:
@@ -969,8 +978,7 @@ def _averageifs(ev, a, sh, at):
 @fn('COUNTIFS', 2, 254)
 def _countifs(ev, a, sh, at):
     pairs = _crit_pairs(ev, a, sh, at)
-    if any(_shape(r) != _shape(pairs[0][0]) for r, _ in pairs):
-        raise XlError(None)
+    _check_shapes([r for r, _ in pairs], pairs[0][0])
     return sum(_select(pairs, len(pairs[0][0].flat())))
 
 
